@@ -310,6 +310,9 @@ async def collab(kind: str, node_id: t.Any, payload: t.Any, mgr: int = 0) -> Non
     if ra and ra[0] == kind and ra[1] == k and mgr == 0:
         raise CollabError(kind, k)
     mode = w.collab.get('mode', 'instant')
+    kinds = w.collab.get('gate_kinds')
+    if mode == 'gated' and kinds is not None and kind not in kinds:
+        mode = 'instant'
     if mode == 'yield':
         await asyncio.sleep(0)
     elif mode == 'gated':
